@@ -55,8 +55,9 @@ def child_list_rules(eng: Engine, ck: Check, rule: str):
         gs = eng.guards_at(sc, call)
         closed = any(pol and enum_members_in(e) == {'CLOSED'} and mentions_attr(e, 'state') for e, pol, _ in gs)
         member = any(pol and (cmp_atom(e) or ('',))[0] == 'in' and mentions_attr(cmp_atom(e)[2], 'children') for e, pol, _ in gs)
+        arg0 = unparse(call.args[0]) if call.args else 'peer'       # the peer being removed: its truthiness (`if not peer: return`) is benign
         other = [unparse(e) for e, pol, _ in gs if not (mentions_attr(e, 'state', 'children', 'connection_type') or call_name(e) == 'isinstance'
-                                                      or unparse(e) == 'peer')]
+                                                      or unparse(e) == arg0)]
         ck.ob(rule, sc, call, 'a child is removed when (and only because) its distributed connection reports CLOSED', closed and member and not other,
               f'guards {[unparse(e) for e, _, _ in gs]}', construct='remove child on CLOSED')
     # distributed_peers bookkeeping
@@ -271,12 +272,16 @@ def run(eng: Engine, ck: Check):
             def exempt(n: Node) -> bool:
                 if n.kind != 'assume':
                     return False
-                s = unparse(n.ast)
-                if '_session' in s and ((n.polarity and s.startswith('not ')) or (not n.polarity and not s.startswith('not '))):
-                    return True
-                if what != 'parent' and 'self.parent' in s and 'peer' in s:
-                    is_neq = '!=' in s or 'is not' in s
-                    return n.polarity == is_neq
+                for e_, pol_ in split_conj(n.ast, n.polarity):
+                    # no session on this branch: nothing can be sent
+                    if mentions_attr(e_, '_session') and not isinstance(e_, ast.Compare) and pol_ is False:
+                        return True
+                    a_ = cmp_atom(e_)
+                    if mentions_attr(e_, '_session') and a_ and a_[0] == 'is' and is_none_const(a_[2]) and pol_ is True:
+                        return True
+                    # the peer whose level/root changed is NOT the current parent on this branch
+                    if what != 'parent' and a_ and a_[0] in ('eq', 'is') and mentions_attr(e_, 'parent') and pol_ is False:
+                        return True
                 return False
             starts = [s for n in sn for s, lab in n.succ if lab == 'next']
             p = c.find_path(starts, lambda n: n.kind == 'exit_return', avoid=lambda n: n in targets or exempt(n),
